@@ -131,12 +131,12 @@ def conditions(tier):
     for ctx, n in ([('S', 3), ('D', 2)] if quick else [('S', 4), ('SU', 3), ('D', 3)]):
         conds.append(Cond('modes_%s_le%d' % (ctx, n - 1), 's: str', ['len(s) <= %d' % (n - 1)],
                           'body_modes(s, %r)' % ctx, timeout=T, smoke=SM if ctx != 'D' else [dict(s='$a$')],
-                          twin=(n - 1 >= 2)))
+                          twin=(n - 1 >= 3)))
         cuts = (36, 37, 92, 93) if n >= 3 else (36, 37)
         for tag, pre in ord_partition('s', 0, cuts):
             conds.append(Cond('modes_%s_eq%d_%s' % (ctx, n, tag), 's: str', ['len(s) == %d' % n, pre],
                               'body_modes(s, %r)' % ctx, timeout=T * (1 if n < 4 else 4), cost=5,
-                              twin=(tag in ('p_eq36', 'p_eq92') and n >= 3)))
+                              twin=(tag == 'p_eq36' and n >= 3)))
     for ctxn, lst in (('S', SK_S), ('D', SK_D)):
         for nm, sk0 in lst:
             variants = hole_variants(sk0, 1)[:(2 if quick else 99)] if quick else \
